@@ -120,12 +120,25 @@ pub struct Hole {
     pub kind: &'static str,
 }
 
+/// What C18 needs to know about a module to build `module.` / `value.` holes.
+#[derive(Clone, Debug, Default)]
+pub struct ModInfo {
+    pub file: usize,
+    /// (accessor as written in this module, file of the imported module)
+    pub accessors: Vec<(String, usize)>,
+    /// public functions and constructors: (name, decl)
+    pub pub_members: Vec<(String, usize)>,
+    /// own types: (name, labels common to all constructors)
+    pub types: Vec<(String, Vec<String>)>,
+}
+
 #[derive(Clone, Debug, Default)]
 pub struct ScopedWs {
     pub ws: Workspace,
     pub decls: Vec<Decl>,
     pub occs: Vec<Occ>,
     pub holes: Vec<Hole>,
+    pub modules: Vec<ModInfo>,
 }
 
 // ---------------------------------------------------------------------------------------
@@ -237,6 +250,30 @@ pub fn gen_workspace(c: &mut Choices, cfg: &Cfg) -> (ScopedWs, usize) {
         g.emit_module(m);
     }
     let ex = g.excluded_shadowed_guard;
+    for m in 0..g.mods.len() {
+        let ms = &g.mods[m];
+        let mut info = ModInfo { file: ms.file, ..Default::default() };
+        for imp in &g.imports[m] {
+            info.accessors.push((imp.accessor.clone(), g.mods[imp.module].file));
+        }
+        for f in ms.fns.iter().filter(|f| f.public) {
+            info.pub_members.push((f.name.clone(), f.decl));
+        }
+        for t in ms.types.iter().filter(|t| t.public) {
+            for c in &t.ctors {
+                info.pub_members.push((c.name.clone(), c.decl));
+            }
+        }
+        for t in &ms.types {
+            let mut common: Vec<String> = t.ctors.first().map(|c| c.fields.iter().flatten().cloned().collect()).unwrap_or_default();
+            for c in t.ctors.iter().skip(1) {
+                let labels: Vec<String> = c.fields.iter().flatten().cloned().collect();
+                common.retain(|l| labels.contains(l));
+            }
+            info.types.push((t.name.clone(), common));
+        }
+        g.out.modules.push(info);
+    }
     (g.out, ex)
 }
 
@@ -884,6 +921,10 @@ impl<'a, 'b, 'c> G<'a, 'b, 'c> {
                 add(&u.0, Some(u.2), &mut visible);
             }
         }
+        for imp in &self.imports[m] {
+            let md = self.mods[imp.module].module_decl;
+            add(&imp.accessor, Some(md), &mut visible);
+        }
         self.out.holes.push(Hole { file: em.file, range: (s, em.pos()), visible, kind });
     }
 
@@ -1007,16 +1048,14 @@ impl<'a, 'b, 'c> G<'a, 'b, 'c> {
                     em.raw(", _)");
                 }
                 let _ = before;
-                em.raw(" as ");
                 let mut taken: Vec<String> = binders.iter().map(|b| b.0.clone()).collect();
+                // when the pool of names is used up the `as` clause is simply left out
                 if let Some(name) = self.distinct(LOCALS, 1, &mut taken).into_iter().next() {
+                    em.raw(" as ");
                     let d = self.new_decl(DK::AsName, em.file, &name, false);
                     self.def(em, d, "as-name");
                     binders.push((name, d));
-                } else {
-                    em.raw("z8");
                 }
-                // (`z8` is never referenced and cannot collide: it is outside every pool)
             }
             _ => {
                 // "pre" <> rest
